@@ -16,8 +16,6 @@ ASSUMPTIONS = [
     'so that directory permission bits matter; ownership, ACLs, file flags are not compared',
     'xattrs, sparse-hole detection (FIEMAP/SEEK_HOLE) and the allocation unit are compared by the differential only',
     'symlink modes -L/-H and traversal filters are not modelled (only -P, the default, is)',
-    'xar is driven by corpus cases only: on larger trees the xar reader sometimes fails with "Decompressed size error" '
-    'depending on the archive byte layout (unchanged tree too; untriaged, corpus/C12/untriaged-xar-seekable.txt)',
     'formats driven: pax, gnutar, cpio newc, zip, 7zip, xar; iso9660 (needs rockridge=strict, has no entry for ".") and '
     'mtree (metadata only) are not driven; paths stay below PATH_MAX (names up to NAME_MAX, depth bounded)',
 ]
@@ -190,8 +188,14 @@ def gen_tree(rng, n, deep=False, big=False, xattrs=False, weird_links=False):
                 used.discard(path); continue
             ops.append(f'h {hx(path)} {hx(rng.choice(cands)[0])}')
             info['hardlinks'] += 1
-    if leaves and rng.random() < 0.2:
-        ops.append(f'hx {hx(rng.choice([x for x in leaves if x[1] == "f"] or leaves)[0])}')
+    # incomplete hard-link groups: names of the inode that are NOT part of the tree (nlink > names archived);
+    # several per tree, also on files that have further names inside the tree
+    regs = [x[0] for x in leaves if x[1] == 'f']
+    info['incomplete_groups'] = 0
+    for pth in rng.sample(regs, min(len(regs), rng.choice([0, 0, 1, 2, 3, 5]))):
+        for _ in range(rng.choice([1, 1, 2])):
+            ops.append(f'hx {hx(pth)}')
+        info['incomplete_groups'] += 1
     if xattrs:
         for p, k in leaves + [(d, 'd') for d in dirs[1:]]:
             if k in ('f', 'd') and rng.random() < 0.4:
@@ -242,10 +246,7 @@ class TreeEng(Engine):
     # -- generation -------------------------------------------------------
     def scenario(self, rng, tier, i, big_tree=False):
         ops = []
-        # xar is driven by the corpus cases only: on larger trees the xar reader sometimes stops with "Decompressed size
-        # error" depending on the byte layout of the archive (TOC length, i.e. timestamps) - present in the unchanged
-        # tree, seen with seekable and sequential sources, not minimised: corpus/C12/untriaged-xar-seekable.txt
-        lib_fmts = ['pax', 'gnutar', 'newc'] if tier == 'quick' else [f for f in FORMATS if f != 'xar']
+        lib_fmts = ['pax', 'gnutar', 'newc'] if tier == 'quick' else list(FORMATS)
         ops.append('walk')
         for fmt in rng.sample(lib_fmts, 2 if tier == 'quick' else 4):
             flags = rng.choice(['pt', 'pts', 'pt', 'pts', 't', 'p', 'ptsx'])
@@ -263,6 +264,19 @@ class TreeEng(Engine):
         ops.append(f'cli cpio newc - {rng.choice(["-dm", "-dm", "-d", "-dmu"])} {rng.choice([0, 0, NOBODY])}')
         ops.append('list ' + rng.choice(['pax', 'gnutar', '-']))
         return ops
+
+    def many_groups(self, rng, n=2200):
+        """More than 2048 hard-link groups pending in the resolver at once (its table grows twice): first names in
+        one directory, second names in another, some groups with a name outside the tree."""
+        ops = ['d - 755 1000000000 0', f'd {hx("a")} 755 1000000001 0', f'd {hx("b")} 755 1000000002 0']
+        for i in range(n):
+            ops.append(f'f {hx("a/f%d" % i)} 644 {1000001000 + i} 0 {i % 7} {i + 1} {"0:%d" % (i % 7) if i % 7 else "-"}')
+        for i in range(n):
+            if i % 50 == 7:
+                ops.append(f'hx {hx("a/f%d" % i)}')
+            ops.append(f'h {hx("b/g%d" % i)} {hx("a/f%d" % i)}')
+        ops += ['seal', 'walk', 'cli tar pax - -p 0', 'cli cpio newc - -dm 0']
+        return Case('many-groups', ops, dict(files=n, hardlinks=n, dirs=2))
 
     def gen(self, rng, tier):
         n = 40 if tier == 'quick' else 400
@@ -304,7 +318,7 @@ class TreeEng(Engine):
                     yield 'walk did not visit exactly the objects of the tree'
             elif w[0] in ('rt', 'cli') and src is not None:
                 if w[0] == 'rt':
-                    fmt, flags, uid = w[1], w[2], int(w[3])
+                    fmt, flags, uid = w[1][:-4] if w[1].endswith('-seq') else w[1], w[2], int(w[3])
                     perm, tm, sparse = 'p' in flags, 't' in flags, 's' in flags
                 else:
                     fmt, xo, uid = w[2], w[4].split(','), int(w[5])
@@ -393,7 +407,7 @@ class TreeEng(Engine):
 
     def stats(self, cases, impl):
         st = {'trees': len(cases), 'ops': {}, 'formats': {}, 'nonroot_restores': 0}
-        keys = ['dirs', 'files', 'symlinks', 'fifos', 'hardlinks', 'holes', 'longnames', 'nonascii', 'xattrs', 'ro_dirs']
+        keys = ['dirs', 'files', 'symlinks', 'fifos', 'hardlinks', 'incomplete_groups', 'holes', 'longnames', 'nonascii', 'xattrs', 'ro_dirs']
         for k in keys:
             st[k] = 0
         st['max_depth'] = 0
@@ -413,4 +427,16 @@ class TreeEng(Engine):
         return st
 
 
-ENGINES = [TreeEng()]
+class TreeMany(TreeEng):
+    """The same harness and model on one big tree: more than 2048 hard-link groups pending in the resolver at once.
+    A separate engine so that a disagreement on its 4400 ops is reported as it is instead of being delta-debugged."""
+    name = 'treemany'
+    harness = 'tree'
+    model = 'tree'
+    keep_prefix = 10 ** 9
+
+    def gen(self, rng, tier):
+        yield self.many_groups(rng, 2200 if tier == 'quick' else 4300)
+
+
+ENGINES = [TreeEng(), TreeMany()]
